@@ -600,6 +600,65 @@ func genParFacts() {
 		}
 	}
 
+	// package-level variables of lib/query, lib/value and lib/option: every function of these packages can run on a
+	// worker goroutine (the evaluation of an expression per record), so a package-level variable that some function
+	// writes — by assignment, element assignment, or a method that changes its receiver (summary.go) — needs a
+	// lock, a sync.Once, or a type that is safe for concurrent use.  `init` functions and declarations run before
+	// any goroutine exists.
+	for _, extra := range []struct{ dir, path string }{{"query", queryPkg}, {"value", "github.com/mithrandie/csvq/lib/value"}, {"option", "github.com/mithrandie/csvq/lib/option"}} {
+		pp := p
+		aa := a
+		if extra.path != queryPkg {
+			pp = loadPkg(filepath.Join(repoRoot(), "lib", extra.dir), extra.path)
+			aa = &analysis{p: pp, sums: a.sums, initLits: map[types.Object][]*ast.FuncLit{}, initOf: map[types.Object]ast.Expr{}, called: map[string]bool{}, decls: map[types.Object]*ast.FuncDecl{}}
+		}
+		gr := newRegion("package-level variables of lib/"+extra.dir, token.NoPos)
+		for _, f := range pp.Files {
+			for _, d := range f.Decls {
+				fd, ok := d.(*ast.FuncDecl)
+				if !ok || fd.Body == nil || (fd.Recv == nil && fd.Name.Name == "init") {
+					continue
+				}
+				b := &wbody{label: funcLabel(fd), multi: true}
+				before := len(gr.acc)
+				v := aa.newVisitor(gr, b, funcLabel(fd))
+				v.named = true
+				v.allowGo = true
+				v.methodPass = true
+				v.top = fd
+				v.stmts(fd.Body.List)
+				if len(gr.acc) > before {
+					gr.bodies = append(gr.bodies, b)
+					if gr.pos == token.NoPos {
+						gr.pos = fd.Pos()
+					}
+				}
+			}
+		}
+		// variables nobody writes are of no interest here: keep the facts of written variables only
+		written := map[string]bool{}
+		for _, ac := range gr.acc {
+			if ac.rw == 'W' && ac.kind == kVar {
+				root := ac.path
+				if i := strings.Index(root, "."); i >= 0 {
+					root = root[:i]
+				}
+				written[root] = true
+			}
+		}
+		var kept []*access
+		for _, ac := range gr.acc {
+			root := ac.path
+			if i := strings.Index(root, "."); i >= 0 {
+				root = root[:i]
+			}
+			if written[root] {
+				kept = append(kept, ac)
+			}
+		}
+		gr.acc = kept
+	}
+
 	// fields and package-level variables handed to sync/atomic somewhere in the package: every other access to the
 	// same memory has to be atomic too — a plain `*scope.Counter` (or `x` where `&x` goes to atomic.AddInt64) next
 	// to the atomic operation is a data race whatever the surrounding code looks like.
